@@ -972,8 +972,11 @@ func newC03Side(spec *rspec.Spec) *c03Side {
 	gg := rgen.NewFromSpec(spec)
 	sd.g = ngen.SpecGenerator(&gg,
 		ngen.WithBlockIOResolver(func(c string) (*rspec.LinuxBlockIO, error) {
-			w := uint16(len(c))
-			return &rspec.LinuxBlockIO{Weight: &w, WeightDevice: nil}, recordClass(sd, "blockio", c)
+			// the class "cls<N>" resolves to a block I/O weight of N, so the spec itself shows the class
+			var n int
+			fmt.Sscanf(c, "cls%d", &n)
+			w := uint16(n)
+			return &rspec.LinuxBlockIO{Weight: &w, WeightDevice: nil}, nil
 		}),
 		ngen.WithRdtResolver(func(c string) (*rspec.LinuxIntelRdt, error) {
 			return &rspec.LinuxIntelRdt{ClosID: c}, nil
